@@ -205,6 +205,8 @@ class Interp:
                 self.path.result = ("return", v)
             except Raised as r:
                 self.path.result = ("raise", r.typ)
+            except RecursionError:
+                self.path.result = ("raise", "RecursionError (unbounded recursion in the analysed code on this input)")
             self.path.final_store = self.store
             paths.append(self.path)
             if len(paths) > self.max_paths:
@@ -782,7 +784,7 @@ class Interp:
             return Residual(key)
         try:
             return base[i]
-        except (IndexError, KeyError) as ex:
+        except (IndexError, KeyError, TypeError) as ex:
             raise Raised(type(ex).__name__)
 
     def e_Yield(self, e, frame):
